@@ -477,6 +477,55 @@ func engineOracles(c *Ctx, ec *eCase, recs []reqRec) {
 				}
 			}
 		}
+		// ---- C18: once a handler has selected a language, the rest of the same run uses it
+		if r.x == "ok" && r.lang != nil && !hasFirst {
+			after := false
+			for _, cl := range r.calls {
+				if after && (cl.lang == nil || *cl.lang != *r.lang) {
+					c.Fail("C18", "call-language-in-run", fmt.Sprintf("%s: %q was called in language %s after a handler had selected %s in the same request", where, cl.sym, optS(cl.lang), *r.lang))
+					break
+				}
+				if cl.sym == "ll" || cl.sym == "setlang" {
+					// the handler's code is valid exactly when the session language now is its ISO form
+					for _, ru := range ec.exts {
+						if ru.sym == cl.sym && ec.langof[ru.content] == *r.lang && (prev == nil || prev.lang == nil || *prev.lang != *r.lang) {
+							after = true
+						}
+					}
+				}
+			}
+		}
+		// ---- C06: a handler's TERMINATE request sticks
+		if r.x == "ok" && r.state != "nostate" && !hasFirst {
+			for _, cl := range r.calls {
+				all, any := true, false
+				for _, ru := range ec.exts {
+					if ru.sym != cl.sym {
+						continue
+					}
+					any = true
+					has := false
+					for _, f := range ru.set {
+						if f == 6 {
+							has = true
+						}
+					}
+					for _, f := range ru.reset {
+						if f == 6 {
+							has = false
+						}
+					}
+					if !has || ru.fail {
+						all = false
+					}
+				}
+				if any && all && !flagBit(r.flags, 6) && len(r.flags) > 0 {
+					c.Fail("C06", "terminate-cleared", fmt.Sprintf("%s: handler %q asked for TERMINATE but the flag is not set after the request (flags %x)", where, cl.sym, r.flags))
+					c.Fail("C20", "terminate-cleared", fmt.Sprintf("%s: handler %q asked for TERMINATE but the flag is not set after the request (flags %x)", where, cl.sym, r.flags))
+					break
+				}
+			}
+		}
 		// ---- C18: lookups carry the session language (requests without a language change)
 		if prev != nil && prev.x != "panic" {
 			same := (prev.lang == nil && r.lang == nil) || (prev.lang != nil && r.lang != nil && *prev.lang == *r.lang)
